@@ -1,6 +1,7 @@
 import ALock.Drv.Sem
 import ALock.Drv.Mutex
 import ALock.Drv.RwLock
+import ALock.Drv.OnceCell
 
 /-!
 `alock-driver`: reads op lines on stdin, prints one observation line per input line.
@@ -16,6 +17,7 @@ inductive World where
   | sem (s : Sem.Sys)
   | mutex (s : Mutex.Sys)
   | rwlock (s : RwLock.Sys)
+  | once (s : Once.Sys)
 
 def World.create (toks : List String) : World × String :=
   match toks with
@@ -31,6 +33,10 @@ def World.create (toks : List String) : World × String :=
     match Drv.RwLock.create rest with
     | some s => (.rwlock s, Drv.obs "ok" [] (Drv.RwLock.snapshot s))
     | Option.none => (.empty, "bad-op")
+  | "once" :: rest =>
+    match Drv.Once.create rest with
+    | some s => (.once s, Drv.obs "ok" [] (Drv.Once.snapshot s))
+    | Option.none => (.empty, "bad-op")
   | _ => (.empty, "bad-op")
 
 def World.exec (w : World) (toks : List String) : World × String :=
@@ -39,6 +45,7 @@ def World.exec (w : World) (toks : List String) : World × String :=
   | .sem s => let r := Drv.Sem.exec s toks; (.sem r.1, r.2)
   | .mutex s => let r := Drv.Mutex.exec s toks; (.mutex r.1, r.2)
   | .rwlock s => let r := Drv.RwLock.exec s toks; (.rwlock r.1, r.2)
+  | .once s => let r := Drv.Once.exec s toks; (.once r.1, r.2)
 
 def World.label (w : World) (toks : List String) : Option String :=
   match w with
